@@ -5,6 +5,7 @@ import AwsVerif.Proofs.C02.TableEq
 import AwsVerif.Proofs.C02.Lookup3
 import AwsVerif.Proofs.C02.Lookup3Paths
 import AwsVerif.Proofs.C02.HashIC
+import AwsVerif.Proofs.C02.GenBridge
 /-!
 # C02 — the hash table behaves as a map under any operation history
 
@@ -76,6 +77,22 @@ theorem c02_inv_programs (h : Nat → Nat) (size : Nat) (dk dv : Bool) (t : Tabl
     (ops : List Op) :
     Inv h (runModel h t ops).1 ∧ ∀ r ∈ (runModel h t ops).2, r ≠ .error .fuel :=
   run_inv ops t (init_inv h hi).1
+
+/-- the library's own `hash_table_state_is_valid` — its conjuncts over `size`, `entry_count`, `max_load` and `mask`
+(size ≥ 2 and a power of two by `aws_is_power_of_two`, `entry_count ≤ max_load < size`, `mask = size − 1`), cut out of
+hash_table.c and re-translated on every run (`Gen/HashValid.lean`) — holds in the state reached by every program from
+every successful `init`: what a DEBUG_BUILD asserts before and after each hash-table call.  (The remaining conjuncts are
+non-NULL tests of the callbacks / allocator / slots and the load-factor constant; `Gen.HashValid.stateValidOther` names them.) -/
+theorem c02_state_valid (h : Nat → Nat) (size : Nat) (dk dv : Bool) (t : Table) (hi : init size dk dv = .ok t)
+    (ops : List Op) :
+    AwsVerif.Gen.HashValid.stateValidInt (runModel h t ops).1.size (runModel h t ops).1.entryCount
+      (runModel h t ops).1.maxLoad (runModel h t ops).1.mask = true :=
+  (c02_inv_programs h size dk dv t hi ops).1.1.stateValidInt
+
+/-- the translated predicate is not constant: over-full, non-power-of-two size, wrong mask and size 1 are rejected -/
+example : AwsVerif.Gen.HashValid.stateValidInt 4 3 3 3 = true ∧ AwsVerif.Gen.HashValid.stateValidInt 4 4 3 3 = false ∧
+    AwsVerif.Gen.HashValid.stateValidInt 6 1 5 5 = false ∧ AwsVerif.Gen.HashValid.stateValidInt 4 1 3 7 = false ∧
+    AwsVerif.Gen.HashValid.stateValidInt 4 1 4 3 = false ∧ AwsVerif.Gen.HashValid.stateValidInt 1 0 0 0 = false := by decide
 
 /-- deletion through an iterator that is ready for use keeps the invariant, removes exactly the element the
 iterator shows, and calls the destructors on exactly that element iff `destroy_contents`; `aws_hash_table_foreach`
